@@ -25,12 +25,19 @@ TEXT = {
              note=_std_note, technique=_tech),
  'C07': dict(level="The registry invariant Server.WF (distinct ids and UUIDs, no empty registered session, no live id in the pool, gauge = number of sessions) is proved "
                    "for every state reachable by any sequential history (C07_registry_invariant via run_WF); C07_join_live / _join_refused / _last_departure / "
-                   "_departure_keeps / _fresh_session give the per-step clauses. The schedule-quantified clauses are NOT proved (layer C not built yet).",
+                   "_departure_keeps / _fresh_session give the per-step clauses. The schedule-quantified clauses are proved on the concurrent registry model "
+                   "(Model/Registry.lean: one transition per critical section of HandleParticipantJoin / leaveSession, any number of connections, any interleaving): "
+                   "C07_conc_invariant, C07_conc_join_never_orphaned, C07_conc_registry_consistent, C07_conc_quiescent; C07_old_code_orphans_a_join / "
+                   "_unregisters_twice are the kernel-checked interleavings of the code before the repair F20. That model is tied to the code by the skeleton and "
+                   "lock facts and by the schedule exploration of the real handlers (every Lock a scheduling point, preemption bound 2), judged by the executable "
+                   "reading of C07_conc_quiescent; it is not a translation of the Go code.",
              note=_std_note, technique=_tech),
  'C10': dict(level="C10_no_collision: for every history, session ids and UUIDs of live sessions are pairwise distinct and, in every session, participant ids, entity ids, "
                    "type ids, type names and asset instance ids are pairwise distinct and bounded by their counters (run_WF + run_AllInv); C10_counters_monotone / "
                    "C10_leave_releases_nothing: no request and no departure ever moves a counter backwards or releases an id; ids are issued as counter+1 "
-                   "(C10_join_fresh_pid, C10_session_id_fresh); C10_types_bijective. The concurrent clause is not proved (layer C not built yet).",
+                   "(C10_join_fresh_pid, C10_session_id_fresh); C10_types_bijective. Under concurrency: C10_conc_live_sessions_have_distinct_ids (session numbers, "
+                   "every interleaving of the registry's critical sections); participant / entity / asset / type ids under concurrent allocation are measured only "
+                   "(schedule exploration of the real handlers with an id-uniqueness oracle, wire scenario `types`).",
              note=_std_note + " uint32 wrap-around after 2^32-1 allocations is outside the model (ids are unbounded naturals).", technique=_tech),
  'C12': dict(level="Refinement of the component store to a partial map: add/update/delete/list/entity-removal theorems (C12_*) state the exact effect on the set of "
                    "components and the refusal codes, for every session state.",
